@@ -14,27 +14,102 @@ import (
 	"fmt"
 	"io"
 	"os"
+	"strings"
 
 	"github.com/sirupsen/logrus"
 
 	"verifharness/hlib"
+	"verifharness/lexgen"
 )
 
 type input struct {
-	Kind  string `json:"kind"`  // lex | dgram | http
-	Class string `json:"class"` // generator stream / shape
-	NS    string `json:"ns,omitempty"`
-	Data  []int  `json:"data"` // the line, the datagram, or the request body
+	Kind  string  `json:"kind"`  // lex | dgram | recv | http
+	Class string  `json:"class"` // generator stream / shape
+	NS    string  `json:"ns,omitempty"`
+	Data  payload `json:"data"` // the line, the datagram(s), or the request body
 
 	// dgram
-	LogBad bool  `json:"logbad,omitempty"` // bad-line logging enabled (rate limit off)
-	Cuts   []int `json:"cuts,omitempty"`   // data is cut at these offsets into successive datagrams
-	Batch  bool  `json:"batch,omitempty"`  // all datagrams in one batch (otherwise one batch each)
+	LogBad     bool  `json:"logbad,omitempty"` // bad-line logging enabled (rate limit off)
+	Cuts       []int `json:"cuts,omitempty"`   // data is cut at these offsets into successive datagrams
+	Batch      bool  `json:"batch,omitempty"`  // all datagrams in one batch (otherwise one batch each)
+	IgnoreHost bool  `json:"ignorehost,omitempty"`
+	// recv: the socket-facing path (DatagramReceiver -> DatagramParser)
+	Sock          string `json:"sock,omitempty"`    // udp | unixgram | script (scripted PacketConn)
+	Readers       int    `json:"readers,omitempty"` // max-readers
+	RBatch        int    `json:"rbatch,omitempty"`  // receive-batch-size
+	Parsers       int    `json:"parsers,omitempty"` // max-parsers
+	ConnPerReader bool   `json:"connperreader,omitempty"`
+	Errs          []int  `json:"errs,omitempty"` // script: a read error before these datagram indices
 	// http
 	Ep       string `json:"ep,omitempty"`       // raw | event
 	Enc      string `json:"enc,omitempty"`      // Content-Encoding header value
 	NoEnc    bool   `json:"noenc,omitempty"`    // header absent
 	ReadFail string `json:"readfail,omitempty"` // "" | short (declared length > bytes sent) | badchunk
+}
+
+// payload is the shrinkable part of an input: a flat byte list (lex, dgram, http) or, for the
+// recv stream, a list of datagrams (so that delta debugging removes whole datagrams).
+type payload struct {
+	Flat  []int
+	Lists [][]int
+	Multi bool
+}
+
+func flat(s string) payload { return payload{Flat: lexgen.ToInts(s)} }
+func lists(msgs []string) payload {
+	p := payload{Multi: true, Lists: make([][]int, len(msgs))}
+	for i, m := range msgs {
+		p.Lists[i] = lexgen.ToInts(m)
+	}
+	return p
+}
+func (p payload) MarshalJSON() ([]byte, error) {
+	if p.Multi {
+		if p.Lists == nil {
+			return []byte("[]"), nil
+		}
+		for i := range p.Lists {
+			if p.Lists[i] == nil {
+				p.Lists[i] = []int{}
+			}
+		}
+		return json.Marshal(p.Lists)
+	}
+	if p.Flat == nil {
+		return []byte("[]"), nil
+	}
+	return json.Marshal(p.Flat)
+}
+func (p *payload) UnmarshalJSON(b []byte) error {
+	*p = payload{}
+	if err := json.Unmarshal(b, &p.Flat); err == nil {
+		return nil
+	}
+	p.Flat, p.Multi = nil, true
+	return json.Unmarshal(b, &p.Lists)
+}
+
+// str is the flat byte string (the concatenation for a list of datagrams).
+func (p payload) str() string {
+	if !p.Multi {
+		return lexgen.FromInts(p.Flat)
+	}
+	return strings.Join(p.datagrams(), "")
+}
+
+// datagrams: a flat payload is one datagram (none when empty).
+func (p payload) datagrams() []string {
+	if !p.Multi {
+		if len(p.Flat) == 0 {
+			return nil
+		}
+		return []string{lexgen.FromInts(p.Flat)}
+	}
+	out := make([]string, len(p.Lists))
+	for i, l := range p.Lists {
+		out[i] = lexgen.FromInts(l)
+	}
+	return out
 }
 
 // fatalMark in a case's monitors: the implementation is wedged, stop the run after this case.
@@ -45,7 +120,13 @@ func main() {
 	a := hlib.ParseArgs()
 	em := hlib.NewEmitter()
 	defer em.Close()
+	if a.Extra["stream"] == "recvworker" {
+		recvWorker()
+		return
+	}
 	lexr := newLexRunner()
+	recvr := &recvRunner{}
+	defer recvr.stop()
 	var httpr *httpRunner
 	defer func() {
 		if httpr != nil {
@@ -84,6 +165,8 @@ func main() {
 			emit(lexr.run(in))
 		case "dgram":
 			emit(runDgram(in))
+		case "recv":
+			emit(recvr.run(in))
 		case "http":
 			if httpr == nil {
 				httpr = newHTTPRunner()
